@@ -26,7 +26,13 @@ def run(ctx):
     fx = ctx.facts("A")
     w = W.World(fx, ["ruma_common"])
     eff = lambda n: "indexmap" in n or n == P + "insert_and_move_rule" or n.endswith("::starts_with") or n.endswith("::contains")
-    dex = D.Dex(w.lookup, adt_discr=w.adt_discr, effects=eff, unroll=1)
+    def helper(n):
+        # closures called directly, and private free functions of ruma_common::push other than the named anchor
+        if "{closure" in n:
+            return True
+        rest = n[len(P):] if n.startswith(P) else None
+        return rest is not None and "::" not in rest and "<" not in rest and rest != "insert_and_move_rule"
+    dex = D.Dex(w.lookup, adt_discr=w.adt_discr, effects=eff, unroll=1, inline=helper)
 
     ctx.rule("C13.atomic", "no path of insert_and_move_rule / Ruleset::{remove,set_enabled,set_actions} that returns Err performs a mutating IndexSet "
                            "operation; Ruleset::insert mutates only through a final insert_and_move_rule call whose result it returns")
